@@ -469,6 +469,29 @@ func cmdCfgFmt(args []string) error {
 			emit(rec)
 		}
 	}
+	// line endings: CR, CRLF and a lone CR in the places where a line end means something (the leading comment block, between
+	// directives, inside a block): what is a comment when the file is read must still be a comment after it is written
+	crAccepted := 0
+	for i, src := range corpus {
+		if i%*shards != *shard || i >= 120 {
+			continue
+		}
+		for _, pre := range []string{"# note\rstill the note?\n", "# x\r/evilcr {\n  pull { path /pull/evilcr }\n}\n", "# crlf\r\n# second\r\n", "\r# after a bare CR\n", "# a\r\r\nb-is-not-a-directive\n"} {
+			if rec, ok := roundTrip(pre+src, "line-ends"); ok {
+				crAccepted++
+				emit(rec)
+			}
+		}
+		if rec, ok := roundTrip(strings.ReplaceAll(src, "\n", "\r\n"), "line-ends"); ok {
+			crAccepted++
+			emit(rec)
+		}
+		if rec, ok := roundTrip(strings.Replace(src, "\n", "\r", 1), "line-ends"); ok {
+			crAccepted++
+			emit(rec)
+		}
+	}
+	emit(map[string]interface{}{"k": "corpus", "lineEndVariantsAcceptedThisShard": crAccepted})
 	// every sequence of up to four routes over the channel kinds and their two spellings (prefix form, wrapper block):
 	// what the formatter groups, splits or re-orders must compile to the same routes in the same order
 	seqs := routeSequenceTexts()
